@@ -191,6 +191,14 @@ func (g *c03Gen) stmt(ind string, depth int, inFunc bool) {
 	case 8:
 		g.nFun++
 		name := fmt.Sprintf("f%d", g.nFun)
+		collides := false
+		if g.pick("fnNamedLikeVariable", 4) == 1 {
+			// a function named like a variable of the colliding pool: it shadows an outer binding of any kind
+			// (declaring it where the name is already bound in the same scope is left out: undocumented)
+			if v := c03Vars[g.pick("name", len(c03Vars))]; !g.scopes[len(g.scopes)-1][v] {
+				name, collides = v, true
+			}
+		}
 		arity := g.pick("arity", 3)
 		params := []string{}
 		for i := 0; i < arity; i++ {
@@ -221,6 +229,15 @@ func (g *c03Gen) stmt(ind string, depth int, inFunc bool) {
 		g.funcs = g.funcs[:savedFuncs]
 		g.pop()
 		w("}")
+		if collides {
+			g.scopes[len(g.scopes)-1][name] = true
+			args := []string{}
+			for i := 0; i < len(params); i++ {
+				args = append(args, g.u())
+			}
+			w("%s %s(%s);", bn.KwPrint, name, strings.Join(args, ", "))
+			return
+		}
 		g.funcs = append(g.funcs, c03Fun{name, len(params), len(g.scopes)})
 	case 9:
 		// a closure escaping the block that declared its variable
